@@ -9,6 +9,10 @@ from .. import refexpr
 from ..refexpr import OPS, RefSyntax
 
 NAMES = ['aa', 'bb', 'cc', 'dd', 'ee', 'ff']
+# identifiers that merely BEGIN with a statement keyword are ordinary names, also at the start of an expression statement
+KEYWORDISH = ['returnTotals', 'returned', 'iffy', 'forEach', 'whileTrue', 'breakfast', 'continued', 'jumpy', 'jumpifNot', 'includes', 'functionOf', 'endif2', 'elseWhere', 'elifx', 'asyncFn']
+_STARTS_LIKE_EXPR = re.compile(r"""^\s*(?:[A-Za-z_]\w*|\(|!|-|\d|\[|'|")""")
+_OTHER_STATEMENT = re.compile(r'^\s*(?:(?:if|elif|while|for|return|jump|jumpif|include|function|async|break|continue|else|endif|endwhile|endfor|endfunction)(?!\w)|[A-Za-z_]\w*\s*(?:=|:\s*$))')  # (a line `name == ...` reads as an assignment on the pinned tree: outside)
 
 
 def plan(tier, seed):
@@ -91,7 +95,8 @@ def check_text(text, acc, parse_expression, perr, expected=None, kind='chain'):
         acc.note_inconclusive(f'reference self-check failed on {text!r}')
         return
     if ref_ok and real_ok:
-        if real != ref:
+        if real != ref or json.dumps(real, sort_keys=True) != json.dumps(ref, sort_keys=True):
+            # (the second test is type-strict: a number leaf is the DOUBLE the text denotes - `7` is 7.0, never the integer 7)
             acc.violation('tree-differs', f'{text!r}: real={json.dumps(real)} ref={json.dumps(ref)}', {'text': text})
     elif ref_ok and not real_ok:
         acc.violation('rejected-wellformed', f'{text!r}: {real.error} col {real.column_number}; reference tree {json.dumps(ref)[:300]}', {'text': text})
@@ -113,6 +118,9 @@ def statement_contexts(text, ref, ref_ok, acc):
         return st['expr']['expr'] if 'expr' in st else st['return'].get('expr')
     forms = [('assign', 'xx = {}', True), ('return', 'return {}', True), ('if', 'if {}:\nendif', False), ('while', 'while {}:\nendwhile', False),
              ('for', 'for vv in {}:\nendfor', False), ('elif', 'if cc:\nelif {}:\nendif', False), ('jumpif', 'lbl:\njumpif ({}) lbl', False)]
+    if ref_ok and _STARTS_LIKE_EXPR.match(text) and not _OTHER_STATEMENT.match(text):
+        # the text alone on a line is an expression statement (a line that begins with a keyword, an assignment or a label stays out)
+        forms.append(('expression-statement', '{}', True))
     if text.lstrip()[:1] in ('=', ':') and not text.lstrip().startswith('=='):
         return  # `return = 2` is an assignment to the variable "return", `return :` a label: other statements, not this expression
     if ' ' in text and not any(c in text for c in '\'"[]#\\\n\r'):
@@ -134,6 +142,9 @@ def statement_contexts(text, ref, ref_ok, acc):
         acc.count('statement_context_parses')
         if ok != ref_ok:
             acc.violation('accepted-illformed' if ok else 'rejected-wellformed', f'{name} statement {src!r}: {"accepted" if ok else "rejected"}, the expression {text!r} is {"well" if ref_ok else "ill"}-formed', {'text': text, 'context': name})
+            return
+        if ok and name == 'expression-statement' and ('expr' not in model['statements'][0] or 'name' in model['statements'][0]['expr']):
+            acc.violation('tree-differs', f'the line {src!r} is an expression statement; it was read as {json.dumps(model["statements"][0])[:300]}', {'text': text, 'context': name})
             return
         if ok and tree and find_tree(model) != ref:
             acc.violation('tree-differs', f'{name} statement {src!r}: {json.dumps(find_tree(model))[:300]} vs {json.dumps(ref)[:300]}', {'text': text, 'context': name})
@@ -182,7 +193,7 @@ def rand_tree(rnd, depth, budget):
         budget[0] -= 1
         y = rnd.random()
         if y < 0.35:
-            return {'variable': rnd.choice(NAMES + ['true', 'null', 'x1', '_y'])}
+            return {'variable': rnd.choice(NAMES + ['true', 'null', 'x1', '_y'] + KEYWORDISH)}
         if y < 0.6:
             return {'number': float(rnd.choice([0, 1, 2, 10, 2.5, 1e21, 1e-7, 123456789, 0.1]))}
         if y < 0.8:
@@ -196,7 +207,7 @@ def rand_tree(rnd, depth, budget):
         return {'unary': {'op': rnd.choice('!-'), 'expr': rand_tree(rnd, depth - 1, budget)}}
     if x < 0.9:
         return {'group': rand_tree(rnd, depth - 1, budget)}
-    return {'function': {'name': rnd.choice(['fn', 'max', 'arrayNew', 'if']),
+    return {'function': {'name': rnd.choice(['fn', 'max', 'arrayNew', 'if'] + (KEYWORDISH if rnd.random() < 0.3 else [])),
                          'args': [rand_tree(rnd, depth - 1, budget) for _ in range(rnd.randint(0, 3))]}}
 
 
